@@ -4,6 +4,9 @@ import GomlVerif.Model.Lift
 import GomlVerif.Model.LiftSim
 import GomlVerif.Model.Anf
 import GomlVerif.Model.AnfFrag
+import GomlVerif.Model.GoCompile
+import GomlVerif.Model.GoFrag
+import GomlVerif.Model.Dce
 /-
 The composite middle end `anf ∘ lift ∘ mono`, sequenced as `pipeline::compile` does
 (`crates/compiler/src/pipeline/pipeline.rs`; the order of the four calls is asserted from the Rust
@@ -123,5 +126,198 @@ def pipeReasons (i : PipeIn) : List String :=
         ["mono:" ++ ((MonoSim.whyNot { P := i.prog, P' := s.mono, pairs := s.pairs }).getD "?")]) ++
       (if fragLift s then [] else ["lift:not-direct-flow"]) ++
       (if fragAnf s then [] else ["anf:scope-or-temporary"])
+
+/-! ## the back end: annotated ANF, `go_file` before and after dead-code elimination
+
+`go/compile.rs` reads the ANF *with* the `ty` fields the shared dump (and therefore `Syntax.Expr`)
+omits: `ImmPrim.ty`, `ALet.ty`, `EIf.ty`, `EWhile.ty`, `EGo.ty` (`Model/GoCompile.lean` works on
+`AExpr`).  `annotA` puts them back the way `anf.rs` computes them: the type of a literal, the type
+of the body of a `let` (`body_expr.get_ty()`; for a source `let` the `ELet.ty` the Lift node
+carries, which is the body's type except for the known closure-as-value artefact, C09's `EQT`),
+the type of the `then` branch, `unit` for `while` and `go`.  `annot_toExpr`
+(`Lemmas/PipeBack.lean`) proves that erasing the annotations again gives the ANF program back. -/
+
+open Goml.GoCompile (Imm CExpr AExpr AArm ADflt AFn AFile)
+
+def annotI : Expr → Option Imm
+  | .var x t => some (.var x t)
+  | .prim p => some (.prim p (Mono.primTy p))
+  | .tag i t => some (.tag i t)
+  | _ => none
+
+def annotIs : List Expr → Option (List Imm)
+  | [] => some []
+  | e :: es =>
+    match annotI e, annotIs es with
+    | some i, some is => some (i :: is)
+    | _, _ => none
+
+/-- an `AExpr` that is a bare `CExpr` -/
+def asC : Option AExpr → Option CExpr
+  | some (.ret c) => some c
+  | _ => none
+
+mutual
+def annotA : Expr → Option AExpr
+  | .var x t => some (.ret (.imm (.var x t)))
+  | .prim p => some (.ret (.imm (.prim p (Mono.primTy p))))
+  | .tag i t => some (.ret (.imm (.tag i t)))
+  | .constr c t args => (annotIs args).map fun is => .ret (.constr c is t)
+  | .tuple t items => (annotIs items).map fun is => .ret (.tuple is t)
+  | .array t items => (annotIs items).map fun is => .ret (.array is t)
+  | .closure _ _ _ => none
+  | .letE x v b =>
+    match asC (annotA v), annotA b with
+    | some v', some b' => some (.letE x v' b' b'.annTy)
+    | _, _ => none
+  | .matchE t s arms d =>
+    match annotI s, annotArms arms, annotD d with
+    | some s', some arms', some d' => some (.ret (.matchE s' arms' d' t))
+    | _, _, _ => none
+  | .ite c t e =>
+    match annotI c, annotA t, annotA e with
+    | some c', some t', some e' => some (.ret (.ite c' t' e' t'.annTy))
+    | _, _, _ => none
+  | .while c b =>
+    match annotA c, annotA b with
+    | some c', some b' => some (.ret (.while c' b' .unit))
+    | _, _ => none
+  | .go e => (annotI e).map fun i => .ret (.go i .unit)
+  | .cget c i t e => (annotI e).map fun e' => .ret (.cget e' c i t)
+  | .un op t e => (annotI e).map fun e' => .ret (.un op e' t)
+  | .bin op t l r =>
+    match annotI l, annotI r with
+    | some l', some r' => some (.ret (.bin op l' r' t))
+    | _, _ => none
+  | .call t f args =>
+    match annotI f, annotIs args with
+    | some f', some is => some (.ret (.call f' is t))
+    | _, _ => none
+  | .toDyn tr ft t e => (annotI e).map fun e' => .ret (.toDyn tr ft e' t)
+  | .dynCall tr m t r args =>
+    match annotI r, annotIs args with
+    | some r', some is => some (.ret (.dynCall tr m r' is t))
+    | _, _ => none
+  | .traitCall _ _ _ _ _ => none
+  | .proj i t e => (annotI e).map fun e' => .ret (.proj e' i t)
+def annotArms : List Arm → Option (List AArm)
+  | [] => some []
+  | .mk lhs body :: rest =>
+    match annotI lhs, annotA body, annotArms rest with
+    | some l, some b, some r => some (.mk l b :: r)
+    | _, _, _ => none
+def annotD : Option Expr → Option ADflt
+  | none => some .none
+  | some e => (annotA e).map .some
+end
+
+def annotFn (f : Fn) : Option AFn :=
+  if f.generics.isEmpty then
+    (annotA f.body).map fun b => { name := f.name, params := f.params, ret := f.ret, body := b }
+  else none
+
+def annotFile : List Fn → Option AFile
+  | [] => some []
+  | f :: fs =>
+    match annotFn f, annotFile fs with
+    | some a, some as => some (a :: as)
+    | _, _ => none
+
+/-- input of the whole model pipeline: the middle-end input plus what `go/compile.rs` reads of
+    `GlobalGoEnv` (`GoCompile.Env`: struct / enum tables in the iteration orders of `goenv`, trait
+    signatures, extern declarations, `apply` method types — `gv gocomp`'s `env_dump`; like the
+    dispatch table it is data of the compilation, taken from the real one by the tie) -/
+structure E2EIn where
+  pipe : PipeIn
+  goenv : GoCompile.Env := {}
+
+/-- the intermediate results of the back half -/
+structure BackStages where
+  mid : Stages
+  /-- the annotated ANF file `go_file` is given -/
+  afile : AFile
+  /-- the `Gensym` counter when `anf_file` returns -/
+  gensym : Nat
+  /-- `go_file` up to, not including, `eliminate_dead_vars` -/
+  pre : Go.GFile
+  /-- did the model reach a place where `go/compile.rs` panics -/
+  ok : Bool
+  /-- the emitted file: `eliminate_dead_vars pre` -/
+  emitted : Go.GFile
+
+def backStages (i : E2EIn) : Option BackStages :=
+  match stages i.pipe with
+  | none => none
+  | some s =>
+    match annotFile s.anf.fns with
+    | none => none
+    | some file =>
+      let n := (Anf.anfFns s.lift.fns s.gensym).2
+      let r := GoCompile.goFilePreSt i.goenv file n
+      some { mid := s, afile := file, gensym := n, pre := r.1, ok := r.2.ok, emitted := Dce.eliminateDeadVars r.1 }
+
+/-- **Core ↦ Go file before dead-code elimination** (`go_file` without its last step) -/
+def compileGoPre (i : E2EIn) : Option Go.GFile := (backStages i).map (·.pre)
+
+/-- **the whole model pipeline**: Core ↦ emitted Go file -/
+def compileGo (i : E2EIn) : Option Go.GFile := (backStages i).map (·.emitted)
+
+/-- `GoCompileProps.compile_preserves_run` (gocomp): `main` and everything it calls lie in the
+    back end's proved fragment (`GoFrag.closedOK` on the set `goodFns` computes), `main` takes no
+    parameters -/
+def fragGo (i : E2EIn) (b : BackStages) : Bool :=
+  let G := GoFrag.goodFns i.goenv b.afile b.gensym
+  GoFrag.closedOK i.goenv b.afile b.gensym G && G.contains "main" &&
+    b.afile.any (fun f => f.name == "main" && f.params.isEmpty)
+
+/-- the fragment of `core_to_go_preserves`: `InPipeFragment` and the back end's fragment -/
+def inE2EFragment (i : E2EIn) : Bool :=
+  inPipeFragment i.pipe &&
+    match backStages i with
+    | none => false
+    | some b => fragGo i b
+
+/-- `Dce.dce_file_preserves`: the compiled file (before dead-code elimination) satisfies the
+    per-file contract of the DCE theorem (`Dce.fileDceOK`: every function's body inside the contract
+    of `dce_preserves_syn` for its parameter environment, function names distinct) -/
+def fragDce (b : BackStages) : Bool := Dce.fileDceOK b.pre
+
+/-- the fragment of `core_to_emitted_go_preserves`: `inE2EFragment` and the DCE contract of the
+    compiled file -/
+def inEmitFragment (i : E2EIn) : Bool :=
+  inE2EFragment i &&
+    match backStages i with
+    | none => false
+    | some b => fragDce b
+
+/-- which functions of the compiled file are outside the DCE contract (reports only) -/
+def dceReasons (i : E2EIn) : List String :=
+  match backStages i with
+  | none => []
+  | some b =>
+    (if decide ((b.pre.funcs.map (·.name)).Nodup) then [] else ["dce:duplicate-function-names"]) ++
+    (b.pre.funcs.filter (fun f => !Dce.fnDceOK f)).map fun f =>
+      "dce:" ++ f.name ++ ":" ++
+        (if (f.params.map (·.1)).contains "_" then "blank-parameter"
+         else if !(Dce.scopeErrs (Dce.localsOf f) (f.params.map (·.1)) f.body).isEmpty then "scope"
+         else if !Dce.shapeOK f.body then "shape"
+         else "semOK")
+
+/-- why a program is outside the back end's fragment (reports only): the reason `main` is -/
+def goReasons (i : E2EIn) : List String :=
+  match backStages i with
+  | none => ["go:anf-not-annotatable"]
+  | some b =>
+    if fragGo i b then [] else
+    let G := GoFrag.goodFns i.goenv b.afile b.gensym
+    let closed := GoFrag.closedOK i.goenv b.afile b.gensym G
+    let rec go (st : GoCompile.St) : List AFn → List String
+      | [] => ["go:no-main"]
+      | f :: rest =>
+        if f.name == "main" then
+          [("go:main:" ++ ((GoFrag.outsideReason i.goenv b.afile b.gensym G closed st f).getD
+            (if f.params.isEmpty then "?" else "main-has-parameters")))]
+        else go (GoCompile.compileFn i.goenv st f).2 rest
+    go { n := b.gensym, ok := true } b.afile
 
 end Goml.Pipeline
